@@ -422,103 +422,358 @@ Proof.
   pose proof (proj1 (Forall_forall _ _) (write_part_only_tmp base writes trunc) _ H) as Ho. exact Ho.
 Qed.
 
-Lemma partial_unchanged_or_complete : forall base writes trunc k part f,
-  lookup (final_name base) (run_ops (partial_ops (put_ops base writes trunc) k part) f) = lookup (final_name base) f
-  \/ ((List.length (put_ops base writes trunc) <= k)%nat /\
-      lookup (final_name base) (run_ops (partial_ops (put_ops base writes trunc) k part) f)
-      = Some (new_content writes trunc)).
+(* ---- the put state machine: every run, whatever the environment answers ---- *)
+Definition cut (trunc : option nat) (x : bytes) : bytes :=
+  match trunc with Some n => firstn n x | None => x end.
+
+(* the writer's reaction to a short count is sound for a put that ends with `ftruncate(size)` (or not at all) *)
+Definition policy_ok (p : wpolicy) (trunc : option nat) : Prop :=
+  match p with
+  | PRetry => True
+  | PIgnore => False
+  | PCheck None => True
+  | PCheck (Some m) => match trunc with Some size => (size <= m)%nat | None => False end
+  end.
+Definition cfg_ok (c : wcfg) (trunc : option nat) : Prop :=
+  policy_ok (short_policy c) trunc /\ swallow_last_write_error c = false.
+
+Lemma firstn_short_covered : forall size n (cnt w x y : bytes),
+  (size <= n)%nat -> (n < List.length w)%nat ->
+  firstn size (cnt ++ firstn n w ++ x) = firstn size (cnt ++ w ++ y).
 Proof.
-  intros base writes trunc k part f.
-  set (ops := put_ops base writes trunc).
-  set (wp := write_part base writes trunc).
-  assert (Hops : ops = wp ++ [Rename (tmp_name base) (final_name base)]) by apply put_ops_eq.
-  destruct (Nat.leb (List.length ops) k) eqn:Hk.
-  - apply Nat.leb_le in Hk. right. split; auto. unfold partial_ops.
-    rewrite firstn_all2 by lia.
-    assert (nth_error ops k = None) as -> by (apply nth_error_None; lia).
-    rewrite app_nil_r. apply put_complete.
-  - apply Nat.leb_gt in Hk. left.
-    assert (Hlen : List.length ops = S (List.length wp)) by (rewrite Hops, app_length; simpl; lia).
-    assert (Hf : firstn k ops = firstn k wp).
-    { rewrite Hops, firstn_app. replace (k - List.length wp)%nat with 0%nat by lia. simpl. now rewrite app_nil_r. }
-    unfold partial_ops. rewrite Hf.
-    apply (run_only_touches (tmp_name base)); [|apply tmp_neq_final].
-    apply Forall_app. split; [apply firstn_only, write_part_only_tmp|].
-    destruct (nth_error ops k) as [[| n bs | |]|] eqn:Hn; try constructor.
-    destruct part; constructor; [|constructor].
-    simpl. now apply (nth_error_write_tmp base writes trunc k n bs).
+  intros size n cnt w x y Hs Hn. rewrite !firstn_app. f_equal.
+  rewrite firstn_firstn, firstn_length. rewrite (Nat.min_l n) by lia.
+  replace (size - List.length cnt - n)%nat with 0%nat by lia.
+  replace (size - List.length cnt - List.length w)%nat with 0%nat by lia.
+  cbn [firstn]. rewrite !app_nil_r. f_equal. lia.
 Qed.
 
-Lemma flags_on : flush_errors_reported = true /\ short_write_checked = true.
-Proof. split; reflexivity. Qed.
+Section PutRun.
+Variable c : wcfg.
+Variable base : name.
+Variable trunc : option nat.
+Variable newc : bytes.
+Variable fin0 : option bytes.
+Hypothesis Hc : cfg_ok c trunc.
 
-Lemma not_swallowed : forall ops trunc k, swallowed ops trunc k = false.
-Proof. intros. unfold swallowed. destruct flags_on as [-> _]. reflexivity. Qed.
+Definition tail_ops : list fsop :=
+  match trunc with Some n => [Ftruncate (tmp_name base) n] | None => [] end
+  ++ [Rename (tmp_name base) (final_name base)].
 
-(* harmful short write: fewer bytes than the chunk itself reached the file *)
-Definition fault_in_scope (flt : fault) (trunc : option nat) : Prop :=
-  match flt, trunc with
-  | Short _ part, Some size => (List.length part < size)%nat
-  | _, _ => True
-  end.
+(* where a run can be: before the creat; writing (temp file holds [cnt], [ws] still to go, and what the temp file
+   will hold after the remaining writes is the new chunk up to the final cut); before the rename; done *)
+Inductive phase : list fsop -> fs -> Prop :=
+| PhStart : forall ws f, lookup (final_name base) f = fin0 -> cut trunc (List.concat ws) = newc ->
+    phase (Creat (tmp_name base) :: map (Write (tmp_name base)) ws ++ tail_ops) f
+| PhWrite : forall ws cnt f, lookup (final_name base) f = fin0 -> lookup (tmp_name base) f = Some cnt ->
+    cut trunc (cnt ++ List.concat ws) = newc ->
+    phase (map (Write (tmp_name base)) ws ++ tail_ops) f
+| PhRename : forall f, lookup (final_name base) f = fin0 -> lookup (tmp_name base) f = Some newc ->
+    phase [Rename (tmp_name base) (final_name base)] f
+| PhDone : forall f, lookup (final_name base) f = Some newc -> phase [] f.
 
-Lemma put_atomic : forall base writes trunc meta_ok flt f,
-  fault_in_scope flt trunc ->
-  let r := put_chunk base writes trunc meta_ok flt f in
+Definition good (r : option (outcome unit) * fs) : Prop :=
+  (lookup (final_name base) (snd r) = fin0 \/ lookup (final_name base) (snd r) = Some newc)
+  /\ (fst r = Some (Ret tt) -> lookup (final_name base) (snd r) = Some newc).
+
+Lemma final_after_tmp_op : forall op f, only_touches (tmp_name base) op ->
+  lookup (final_name base) (apply_op f op) = lookup (final_name base) f.
+Proof. intros. apply (apply_only_touches (tmp_name base)); [assumption|apply tmp_neq_final]. Qed.
+
+Lemma tmp_after_write : forall f cnt w, lookup (tmp_name base) f = Some cnt ->
+  lookup (tmp_name base) (apply_op f (Write (tmp_name base) w)) = Some (cnt ++ w).
+Proof. intros f cnt w H. cbn [apply_op]. rewrite H. apply lookup_set_eq. Qed.
+
+Lemma rename_publishes : forall f v, lookup (tmp_name base) f = Some v ->
+  lookup (final_name base) (apply_op f (Rename (tmp_name base) (final_name base))) = Some v.
+Proof. intros f v H. cbn [apply_op]. rewrite H. apply lookup_set_eq. Qed.
+
+Lemma phase_step_write : forall ws cnt w f, lookup (final_name base) f = fin0 ->
+  lookup (tmp_name base) f = Some cnt -> cut trunc ((cnt ++ w) ++ List.concat ws) = newc ->
+  phase (map (Write (tmp_name base)) ws ++ tail_ops) (apply_op f (Write (tmp_name base) w)).
+Proof.
+  intros ws cnt w f Hf Ht Hcut. apply (PhWrite ws (cnt ++ w)); [|now apply tmp_after_write|exact Hcut].
+  rewrite final_after_tmp_op; [exact Hf|reflexivity].
+Qed.
+
+Definition after_cut (f : fs) : fs :=
+  match trunc with Some n => apply_op f (Ftruncate (tmp_name base) n) | None => f end.
+
+Lemma after_writes : forall cnt f, lookup (final_name base) f = fin0 ->
+  lookup (tmp_name base) f = Some cnt -> cut trunc cnt = newc ->
+  lookup (final_name base) (after_cut f) = fin0 /\ lookup (tmp_name base) (after_cut f) = Some newc.
+Proof.
+  intros cnt f Hf Ht Hcut. unfold after_cut. destruct trunc as [n|]; cbn [cut] in Hcut.
+  - split; [rewrite final_after_tmp_op; [exact Hf|reflexivity]|].
+    cbn [apply_op]. rewrite Ht, Hcut. apply lookup_set_eq.
+  - split; [exact Hf|now rewrite Ht, Hcut].
+Qed.
+
+Lemma tail_run : forall f,
+  run_ops tail_ops f = apply_op (after_cut f) (Rename (tmp_name base) (final_name base)).
+Proof. intro f. unfold tail_ops, after_cut. destruct trunc; reflexivity. Qed.
+
+Lemma phase_inv : forall ops f, phase ops f ->
+  (exists ws, ops = Creat (tmp_name base) :: map (Write (tmp_name base)) ws ++ tail_ops
+              /\ lookup (final_name base) f = fin0 /\ cut trunc (List.concat ws) = newc)
+  \/ (exists ws cnt, ops = map (Write (tmp_name base)) ws ++ tail_ops
+              /\ lookup (final_name base) f = fin0 /\ lookup (tmp_name base) f = Some cnt
+              /\ cut trunc (cnt ++ List.concat ws) = newc)
+  \/ (ops = [Rename (tmp_name base) (final_name base)]
+              /\ lookup (final_name base) f = fin0 /\ lookup (tmp_name base) f = Some newc)
+  \/ (ops = [] /\ lookup (final_name base) f = Some newc).
+Proof.
+  intros ops f H. destruct H.
+  - left. eauto.
+  - right. left. eauto 8.
+  - right. right. left. auto.
+  - right. right. right. auto.
+Qed.
+
+(* if nothing goes wrong any more, the new chunk ends up under the final name *)
+Lemma run_phase : forall ops f, phase ops f -> lookup (final_name base) (run_ops ops f) = Some newc.
+Proof.
+  assert (Hw : forall ws cnt f, lookup (final_name base) f = fin0 -> lookup (tmp_name base) f = Some cnt ->
+               cut trunc (cnt ++ List.concat ws) = newc ->
+               lookup (final_name base) (run_ops (map (Write (tmp_name base)) ws ++ tail_ops) f) = Some newc).
+  { induction ws as [|w ws IH]; intros cnt f Hf Ht Hcut.
+    - cbn [map app List.concat] in *. rewrite app_nil_r in Hcut.
+      destruct (after_writes cnt f Hf Ht Hcut) as [_ Ht']. rewrite tail_run. now apply rename_publishes.
+    - cbn [map app List.concat] in *.
+      change (run_ops (Write (tmp_name base) w :: map (Write (tmp_name base)) ws ++ tail_ops) f)
+        with (run_ops (map (Write (tmp_name base)) ws ++ tail_ops) (apply_op f (Write (tmp_name base) w))).
+      apply (IH (cnt ++ w)).
+      + rewrite final_after_tmp_op; [exact Hf|reflexivity].
+      + now apply tmp_after_write.
+      + now rewrite <- app_assoc. }
+  intros ops f H.
+  destruct (phase_inv ops f H) as [(ws & -> & Hf & Hcut)|[(ws & cnt & -> & Hf & Ht & Hcut)|[(-> & Hf & Ht)|(-> & Hf)]]].
+  - change (run_ops (Creat (tmp_name base) :: map (Write (tmp_name base)) ws ++ tail_ops) f)
+      with (run_ops (map (Write (tmp_name base)) ws ++ tail_ops) (apply_op f (Creat (tmp_name base)))).
+    apply (Hw ws []).
+    + rewrite final_after_tmp_op; [exact Hf|reflexivity].
+    + cbn [apply_op]. apply lookup_set_eq.
+    + exact Hcut.
+  - now apply (Hw ws cnt).
+  - unfold run_ops. cbn [fold_left]. now apply rename_publishes.
+  - exact Hf.
+Qed.
+
+Lemma good_unchanged : forall o f, lookup (final_name base) f = fin0 -> o <> Some (Ret tt) -> good (o, f).
+Proof. intros o f Hf Ho. split; cbn [fst snd]; [now left|intro; contradiction]. Qed.
+
+Theorem exec_good : forall evs ops f, phase ops f -> good (exec c evs ops f).
+Proof.
+  destruct Hc as [Hpol Hsw].
+  induction evs as [|ev evs IH]; intros ops f Hph.
+  - cbn [exec]. pose proof (run_phase ops f Hph) as Hr. split; cbn [fst snd]; auto.
+  - destruct (phase_inv ops f Hph) as [(ws & -> & Hf & Hcut)|[(ws & cnt & -> & Hf & Ht & Hcut)|[(-> & Hf & Ht)|(-> & Hf)]]].
+    + (* creat *)
+      assert (Hnext : phase (map (Write (tmp_name base)) ws ++ tail_ops) (apply_op f (Creat (tmp_name base)))).
+      { apply (PhWrite ws []); [rewrite final_after_tmp_op; [exact Hf|reflexivity]|cbn [apply_op]; apply lookup_set_eq|exact Hcut]. }
+      cbn [exec]. destruct ev; try (apply IH; exact Hnext); apply good_unchanged; auto; discriminate.
+    + destruct ws as [|w ws].
+      * (* after the last write: ftruncate (direct branch) or rename *)
+        cbn [map app List.concat] in *. rewrite app_nil_r in Hcut.
+        destruct (after_writes cnt f Hf Ht Hcut) as [Hf' Ht']. unfold tail_ops, after_cut in *.
+        destruct trunc as [n|]; cbn [app exec].
+        -- assert (Hp : phase [Rename (tmp_name base) (final_name base)] (apply_op f (Ftruncate (tmp_name base) n)))
+             by (now apply PhRename).
+           destruct ev; try (apply IH; exact Hp); apply good_unchanged; auto; discriminate.
+        -- assert (Hd : phase [] (apply_op f (Rename (tmp_name base) (final_name base)))).
+           { apply PhDone. now apply rename_publishes. }
+           destruct ev; try (apply IH; exact Hd); apply good_unchanged; auto; discriminate.
+      * (* a write *)
+        cbn [map app List.concat] in *.
+        assert (Hfull : phase (map (Write (tmp_name base)) ws ++ tail_ops) (apply_op f (Write (tmp_name base) w))).
+        { apply (phase_step_write ws cnt w f Hf Ht). now rewrite <- app_assoc. }
+        assert (Hpart : forall n, lookup (final_name base) (apply_op f (Write (tmp_name base) (firstn n w))) = fin0).
+        { intro n. rewrite final_after_tmp_op; [exact Hf|reflexivity]. }
+        cbn [exec]. destruct ev as [|n|e|n].
+        -- apply IH. exact Hfull.
+        -- apply good_unchanged; [apply Hpart|discriminate].
+        -- rewrite Hsw. cbn [andb]. apply good_unchanged; auto; discriminate.
+        -- destruct (Nat.ltb n (List.length w)) eqn:Hn; [|apply IH; exact Hfull].
+           destruct (short_policy c) as [| |need] eqn:Hp; cbn [policy_ok] in Hpol.
+           ++ (* retry the remainder *)
+              apply IH.
+              change (Write (tmp_name base) (skipn n w) :: map (Write (tmp_name base)) ws ++ tail_ops)
+                with (map (Write (tmp_name base)) (skipn n w :: ws) ++ tail_ops).
+              apply (PhWrite (skipn n w :: ws) (cnt ++ firstn n w)); [apply Hpart|now apply tmp_after_write|].
+              cbn [List.concat]. rewrite <- app_assoc, (app_assoc (firstn n w)), firstn_skipn. exact Hcut.
+           ++ contradiction.
+           ++ destruct need as [m|].
+              ** assert (Htr : exists size, trunc = Some size /\ (size <= m)%nat).
+                 { revert Hpol. destruct trunc as [size|]; [exists size; auto|contradiction]. }
+                 destruct Htr as [size [Htr Hsz]].
+                 destruct (Nat.ltb n m) eqn:Hm; [apply good_unchanged; [apply Hpart|discriminate]|].
+                 apply Nat.ltb_ge in Hm. apply Nat.ltb_lt in Hn. apply IH.
+                 apply (PhWrite ws (cnt ++ firstn n w)); [apply Hpart|now apply tmp_after_write|].
+                 rewrite Htr in *. cbn [cut] in *. rewrite <- Hcut, <- app_assoc.
+                 apply firstn_short_covered; lia.
+              ** rewrite Hn. apply good_unchanged; [apply Hpart|discriminate].
+    + (* rename *)
+      assert (Hd : phase [] (apply_op f (Rename (tmp_name base) (final_name base)))).
+      { apply PhDone. now apply rename_publishes. }
+      cbn [exec]. destruct ev; try (apply IH; exact Hd); apply good_unchanged; auto; discriminate.
+    + cbn [exec]. split; cbn [fst snd]; auto.
+Qed.
+End PutRun.
+
+Lemma flags_on : flush_errors_reported = true /\ short_write_checked = true /\ plain_policy = PRetry.
+Proof. repeat split; reflexivity. Qed.
+
+(* the translated writer: buffered file object (plain branch), checked os.write (direct branch), no swallowed flush *)
+Lemma cfg_of_ok : forall trunc, cfg_ok (cfg_of trunc) trunc.
+Proof.
+  destruct flags_on as [Hfl [Hsw Hpl]].
+  intros [size|]; unfold cfg_ok, cfg_of; cbn [short_policy swallow_last_write_error].
+  - unfold direct_policy. rewrite Hsw. cbn [policy_ok]. split; [lia|reflexivity].
+  - rewrite Hpl, Hfl. cbn [policy_ok negb]. split; [exact Logic.I|reflexivity].
+Qed.
+
+Lemma put_ops_phase : forall base writes trunc,
+  put_ops base writes trunc
+  = Creat (tmp_name base) :: map (Write (tmp_name base)) writes ++ tail_ops base trunc.
+Proof.
+  intros. rewrite put_ops_eq. unfold write_part, tail_ops. cbn [app]. now rewrite <- app_assoc.
+Qed.
+
+Lemma put_cfg_atomic : forall c base writes trunc meta_ok evs f, cfg_ok c trunc ->
+  let r := put_chunk_cfg c base writes trunc meta_ok evs f in
   (lookup (final_name base) (snd r) = lookup (final_name base) f
    \/ lookup (final_name base) (snd r) = Some (new_content writes trunc))
   /\ (fst r = Some (Ret tt) -> lookup (final_name base) (snd r) = Some (new_content writes trunc)).
 Proof.
-  intros base writes trunc meta_ok flt f Hscope r. subst r. unfold put_chunk.
+  intros c base writes trunc meta_ok evs f Hok r. subst r. unfold put_chunk_cfg.
   destruct meta_ok; cbn [negb]; cbv iota; [|cbn [fst snd]; split; [auto|discriminate]].
-  destruct flt as [|k part|k part e|k part].
-  - cbn [fst snd]. rewrite put_complete. auto.
-  - cbn [fst snd]. destruct (partial_unchanged_or_complete base writes trunc k part f) as [H|[_ H]];
-      (split; [auto|discriminate]).
-  - destruct (Nat.ltb k (List.length (put_ops base writes trunc))) eqn:Hk.
-    + rewrite not_swallowed. cbn [fst snd].
-      destruct (partial_unchanged_or_complete base writes trunc k part f) as [H|[Hc _]].
-      * split; [auto|discriminate].
-      * apply Nat.ltb_lt in Hk. lia.
-    + cbn [fst snd]. rewrite put_complete. auto.
-  - destruct (nth_error (put_ops base writes trunc) k) as [[| n bs | |]|] eqn:Hn;
-      try (cbn [fst snd]; rewrite put_complete; auto).
-    destruct trunc as [size|]; [|cbn [fst snd]; rewrite put_complete; auto].
-    cbn [fault_in_scope] in Hscope. apply Nat.ltb_lt in Hscope. rewrite Hscope.
-    destruct flags_on as [_ ->]. cbn [fst snd].
-    split; [left|discriminate].
-    assert (Hk : (k < List.length (put_ops base writes (Some size)))%nat) by (apply nth_error_Some; congruence).
-    pose proof (nth_error_write_tmp base writes (Some size) k n bs Hn) as ->.
-    rewrite put_ops_eq in *. rewrite app_length in Hk. cbn [List.length] in Hk.
-    assert (k <> List.length (write_part base writes (Some size))).
-    { intro Hc. rewrite nth_error_app2 in Hn by lia. rewrite Hc, Nat.sub_diag in Hn. cbn in Hn. discriminate. }
-    rewrite firstn_app. replace (k - List.length (write_part base writes (Some size)))%nat with 0%nat by lia.
-    cbn [firstn]. rewrite app_nil_r.
-    apply (run_only_touches (tmp_name base)); [|apply tmp_neq_final].
-    apply Forall_app. split; [apply firstn_only, write_part_only_tmp|repeat constructor].
+  pose proof (exec_good c base trunc (new_content writes trunc) (lookup (final_name base) f) Hok evs
+                        (put_ops base writes trunc) f) as H.
+  rewrite put_ops_phase in *.
+  assert (Hph : phase base trunc (new_content writes trunc) (lookup (final_name base) f)
+                      (Creat (tmp_name base) :: map (Write (tmp_name base)) writes ++ tail_ops base trunc) f).
+  { apply PhStart; [reflexivity|]. unfold new_content, cut. destruct trunc; reflexivity. }
+  specialize (H Hph). unfold good in H.
+  destruct (exec c evs _ f) as [[[u|e]|] f']; cbn [fst snd] in *.
+  - exact H.
+  - destruct H as [H _]. split; [exact H|discriminate].
+  - exact H.
 Qed.
 
-(* a failed put is reported, never swallowed *)
-Lemma put_failure_reported : forall base writes trunc flt f k part e,
-  flt = Fail k part e -> (k < List.length (put_ops base writes trunc))%nat ->
-  fst (put_chunk base writes trunc true flt f) = Some (Raise (standard_errors (error_map SNpy) e)).
+Lemma put_atomic : forall base writes trunc meta_ok evs f,
+  let r := put_chunk base writes trunc meta_ok evs f in
+  (lookup (final_name base) (snd r) = lookup (final_name base) f
+   \/ lookup (final_name base) (snd r) = Some (new_content writes trunc))
+  /\ (fst r = Some (Ret tt) -> lookup (final_name base) (snd r) = Some (new_content writes trunc)).
+Proof. intros. apply put_cfg_atomic, cfg_of_ok. Qed.
+
+(* the theorem has teeth: a writer that throws the count of a short write away publishes a damaged chunk over a
+   good one and reports success (this is what `open(..., buffering=0)` + unchecked f.write does) *)
+Lemma ignore_policy_publishes_damage :
+  let c := {| short_policy := PIgnore; swallow_last_write_error := false |} in
+  let r := put_chunk_cfg c [97] [[1; 2]; [3; 4; 5]] None true [EOk; EOk; EShort 1] [(final_name [97], [9])] in
+  fst r = Some (Ret tt) /\ lookup (final_name [97]) (snd r) = Some [1; 2; 3].
+Proof. vm_compute. auto. Qed.
+
+(* what the caller is told: death only by EDie, an exception only the (mapped) error of a failing call or the
+   OSError of the short-write check *)
+Lemma exec_outcome : forall c evs ops f,
+  match fst (exec c evs ops f) with
+  | None => exists n, In (EDie n) evs
+  | Some (Ret _) => True
+  | Some (Raise e) => In (EErr e) evs \/ e = B_OSError
+  end.
 Proof.
-  intros base writes trunc flt f k part e -> Hk. unfold put_chunk. simpl negb. cbv iota.
-  apply Nat.ltb_lt in Hk. rewrite Hk, not_swallowed. reflexivity.
+  intros c. induction evs as [|ev evs IH]; intros ops f; [exact Logic.I|].
+  assert (Hrec : forall ops' f',
+            match fst (exec c evs ops' f') with
+            | None => exists n, In (EDie n) (ev :: evs)
+            | Some (Ret _) => True
+            | Some (Raise e) => In (EErr e) (ev :: evs) \/ e = B_OSError
+            end).
+  { intros ops' f'. specialize (IH ops' f'). destruct (fst (exec c evs ops' f')) as [[u|e]|].
+    - exact Logic.I.
+    - destruct IH as [H|H]; [left; now right|now right].
+    - destruct IH as [n H]. exists n. now right. }
+  destruct ops as [|op ops]; [cbn [exec fst]; destruct ev; try exact Logic.I; eexists; now left|]. cbn [exec].
+  destruct ev as [|n|e|n].
+  - apply Hrec.
+  - cbn [fst]. exists n. now left.
+  - destruct op; try (cbn [fst]; left; now left).
+    destruct (swallow_last_write_error c && is_rename_next ops); [apply Hrec|cbn [fst]; left; now left].
+  - destruct op; try apply Hrec.
+    destruct (Nat.ltb n (List.length bs)); [|apply Hrec].
+    destruct (short_policy c) as [| |need]; try apply Hrec.
+    destruct (Nat.ltb n _); [cbn [fst]; now right|apply Hrec].
 Qed.
 
-Lemma noraise_spec : forall base writes trunc meta_ok flt f,
-  match fst (put_chunk base writes trunc meta_ok flt f) with
-  | None => fst (put_chunk_noraise base writes trunc meta_ok flt f) = None
-  | Some (Ret _) => fst (put_chunk_noraise base writes trunc meta_ok flt f) = Some (Ret None)
+Lemma put_outcome : forall base writes trunc evs f,
+  match fst (put_chunk base writes trunc true evs f) with
+  | None => exists n, In (EDie n) evs
+  | Some (Ret _) => True
+  | Some (Raise e') => exists e, (In (EErr e) evs \/ e = B_OSError) /\ e' = standard_errors (error_map SNpy) e
+  end.
+Proof.
+  intros. unfold put_chunk, put_chunk_cfg. cbn [negb]. cbv iota.
+  pose proof (exec_outcome (cfg_of trunc) evs (put_ops base writes trunc) f) as H.
+  destruct (exec (cfg_of trunc) evs (put_ops base writes trunc) f) as [[[u|e]|] f']; cbn [fst] in *; auto.
+  exists e. auto.
+Qed.
+
+(* a run whose first k calls succeed *)
+Lemma exec_ok_prefix : forall c k evs ops f, (k <= List.length ops)%nat ->
+  exec c (repeat EOk k ++ evs) ops f = exec c evs (skipn k ops) (run_ops (firstn k ops) f).
+Proof.
+  intros c. induction k as [|k IH]; intros evs ops f Hk; [reflexivity|].
+  destruct ops as [|op ops]; [cbn in Hk; lia|].
+  cbn [repeat app exec skipn firstn]. rewrite IH by (cbn in Hk; lia). reflexivity.
+Qed.
+
+(* a failed put is reported, never swallowed: the first failing system call k raises its mapped error *)
+Lemma put_failure_reported : forall base writes trunc f k e rest,
+  (k < List.length (put_ops base writes trunc))%nat ->
+  fst (put_chunk base writes trunc true (repeat EOk k ++ EErr e :: rest) f)
+  = Some (Raise (standard_errors (error_map SNpy) e)).
+Proof.
+  intros base writes trunc f k e rest Hk. unfold put_chunk, put_chunk_cfg. cbn [negb]. cbv iota.
+  rewrite exec_ok_prefix by lia.
+  destruct (skipn k (put_ops base writes trunc)) as [|op ops] eqn:Hs.
+  { apply (f_equal (@List.length fsop)) in Hs. rewrite skipn_length in Hs. cbn [List.length] in Hs. lia. }
+  cbn [exec].
+  assert (Hsw : swallow_last_write_error (cfg_of trunc) = false) by apply cfg_of_ok.
+  rewrite Hsw. cbn [andb]. destruct op; reflexivity.
+Qed.
+
+Lemma noraise_spec : forall base writes trunc meta_ok evs f,
+  match fst (put_chunk base writes trunc meta_ok evs f) with
+  | None => fst (put_chunk_noraise base writes trunc meta_ok evs f) = None
+  | Some (Ret _) => fst (put_chunk_noraise base writes trunc meta_ok evs f) = Some (Ret None)
   | Some (Raise e) =>
-      fst (put_chunk_noraise base writes trunc meta_ok flt f) =
+      fst (put_chunk_noraise base writes trunc meta_ok evs f) =
       Some (if isinst e K_ChunkStoreError then Ret (Some e) else Raise e)
-  end /\ snd (put_chunk_noraise base writes trunc meta_ok flt f) = snd (put_chunk base writes trunc meta_ok flt f).
+  end /\ snd (put_chunk_noraise base writes trunc meta_ok evs f) = snd (put_chunk base writes trunc meta_ok evs f).
 Proof.
   intros. unfold put_chunk_noraise.
-  destruct (put_chunk base writes trunc meta_ok flt f) as [[[u|e]|] f']; cbn [fst snd]; split; auto.
+  destruct (put_chunk base writes trunc meta_ok evs f) as [[[u|e]|] f']; cbn [fst snd]; split; auto.
   destruct absorbed_is_notfound as [_ [_ ->]]. unfold caught. cbn [existsb]. now rewrite orb_false_r.
+Qed.
+
+(* through put_chunk_noraise: whatever happens, the final name holds the previous or the complete new chunk, and
+   unless it holds the complete new chunk the caller is NOT told that the put succeeded *)
+Lemma put_noraise_atomic : forall base writes trunc meta_ok evs f,
+  let r := put_chunk_noraise base writes trunc meta_ok evs f in
+  (lookup (final_name base) (snd r) = lookup (final_name base) f
+   \/ lookup (final_name base) (snd r) = Some (new_content writes trunc))
+  /\ (lookup (final_name base) (snd r) <> Some (new_content writes trunc) -> fst r <> Some (Ret None)).
+Proof.
+  intros base writes trunc meta_ok evs f r. subst r.
+  pose proof (put_atomic base writes trunc meta_ok evs f) as [H1 H2].
+  pose proof (noraise_spec base writes trunc meta_ok evs f) as [H3 H4]. cbv zeta in *.
+  rewrite H4. split; [exact H1|]. intros Hne Hrep.
+  destruct (fst (put_chunk base writes trunc meta_ok evs f)) as [[[]|e]|] eqn:E.
+  - apply Hne, H2. reflexivity.
+  - rewrite H3 in Hrep. destruct (isinst e K_ChunkStoreError); discriminate.
+  - rewrite H3 in Hrep. discriminate.
 Qed.
 
 (* every OS-level error of the put is handed back as a ChunkStoreError object *)
